@@ -5,6 +5,7 @@ ID = "C06"
 LEVEL_TEXT = 'Lean theorems: complement involutive / case-preserving / equal to IUPAC set complement on the regenerated table (all 256 bytes), revcomp = reverse o map complement, involution, frame theorem for named subsets, case idempotence, ungap laws incl. commutation, for all sequences by induction; tied to /repo by table regeneration and differential correspondence.'
 LEVEL_NOTE = 'Trusted: Lean kernel; tools/extract; harness; model of in-place Go loops as list functions validated by correspondence on generated rows.'
 TECHNIQUE = 'Lean 4 proof (decide over bytes, list induction) + differential correspondence'
+NEEDS_BINARY = True
 LEAN_MODULES = ["Gv.Props.C06"]
 REQUIRED_THEOREMS = ["Gv.Props.C06." + n for n in [
     "complement_involutive", "complement_eq_iupac_set_complement", "complement_preserves_case",
@@ -39,7 +40,7 @@ def rand_rows(rng, alpha, maxrows=5, maxlen=9, dupnames=False):
     return rows
 
 
-def gen(rng, tier):
+def _gen_core(rng, tier):
     N = 400 if tier == "quick" else 4000
     # every length 0..9, single row, full alphabet coverage
     for L in range(0, 10):
@@ -92,3 +93,22 @@ def shrink(c):
             a = list(c.args)
             a[ai] = rows_str(r2)
             yield Case(c.op, a)
+
+
+# ---- command-line glue: a multi-alignment Phylip input must be treated as its alignments one by one (`detmulti`) ----
+MULTI_CMDS = [['revcomp'], ['toupper'], ['tolower'], ['unalign']]
+
+
+def gen(rng, tier):
+    from driver import multigen
+    for c in _gen_core(rng, tier):
+        yield c
+    for _ in range(2 if tier == "quick" else 20):
+        for argv in MULTI_CMDS:
+            yield multigen.multi_case(multigen.alignments(rng), argv, "cli-multi-" + "-".join(argv[:2]))
+
+
+def matches(c):
+    if c.op.startswith("det"):
+        return (c.impl or "").startswith("same")
+    return c.model == c.impl
